@@ -8,6 +8,9 @@ props = [json.loads(l)["id"] for l in open(os.path.join(V, "properties.jsonl")) 
 checks, na = [], []
 for pid in props:
     m = meta["checks"].get(pid)
+    dm = os.path.join(V, "docs", pid + ".meta.json")
+    if m is None and os.path.exists(dm) and pid in meta.get("integrated", []):
+        m = json.load(open(dm))          # written by the builder of that check, enabled by the lead in meta["integrated"]
     if m and os.path.exists(os.path.join(V, "checks", pid + ".py")) and not m.get("disabled"):
         checks.append({
             "property_id": pid,
